@@ -169,7 +169,7 @@ step_harness!(c04_q_step_special_twin, 13, false, true, |a| {
     kani::assume(op >= 13);
     (LineInstruction::Special(op), MIns::Special(op))
 });
-step_harness!(c04_q_step_special_vliw, 10, Some(4), true, false, |a| {
+step_harness!(c04_t_step_special_vliw, 10, Some(4), true, false, |a| {
     let op = a as u8;
     kani::assume(op >= 10);
     (LineInstruction::Special(op), MIns::Special(op))
